@@ -1,7 +1,9 @@
 mod astdump;
 mod c01;
 mod c08;
+mod c03;
 mod c05;
+mod c07;
 mod c09;
 mod c06;
 mod c10;
@@ -33,8 +35,10 @@ fn main() {
     let args = util::parse_args(&argv[2..]);
     match argv[1].as_str() {
         "c01" => c01::main(&args),
+        "c03" => c03::main(&args),
         "c05" => c05::main(&args),
         "c08" => c08::main(&args),
+        "c07" => c07::main(&args),
         "c09" => c09::main(&args),
         "c06" => c06::main(&args),
         "c10" => c10::main(&args),
